@@ -284,7 +284,7 @@ func multiStages(r *mon.Run, ps map[string]*party, extra []*idKind) {
 			otherKind = ps["enc_ed1"]
 		}
 		for vi, vn := range []string{"plus-1-A", "plus-2-A", "canonical-tag-plus-1-bytes", "canonical-tag-plus-2-bytes", "canonical-tag-plus-4-bytes",
-			"first-5-chars", "trailing-bits-1", "padded-2", "other-case", "shares-3-bytes"} {
+			"first-5-chars", "trailing-bits-1", "padded-2", "other-case", "shares-3-bytes", "type-capitalised", "type-suffix-v2-garbage-body"} {
 			pv := variantParty(of, pickVariant(vs, vn), vi%2 == 1)
 			for _, sel := range [][]*party{{pv, ps["X1"]}, {ps["X1"], pv}, {pv, otherKind}, {pv, of}, {of, pv}} {
 				hdrs = append(hdrs, &hdr{parties: sel, nearTag: true})
